@@ -80,6 +80,8 @@ def make_world_factory(cfg, tmpdir):
             "origin": np.array(hvec("c19-o", 3, -1, 1)), "orders": np.array([[1, 0, 0], [0, 2, 1]]),
             "deriv_orders": np.array([1, 0, 2]),
             "gam_psd": X @ X.T, "gam_sym": (X + X.T) / 2, "gam_asym": X.copy(),
+            # symmetric only to round-off (as produced by C^T n C): passes the library's allclose test
+            "gam_round": (X + X.T) / 2 + 1e-15 * np.triu(X, 1),
             "T_sq": np.array([hvec("c19-T%d" % r, n, -1, 1) for r in range(n)]),
             "T_rect": np.array([hvec("c19-R%d" % r, n, -1, 1) for r in range(4)]),
             "T_bad": np.ones((3, n + 2)),
@@ -143,6 +145,11 @@ def build_ops(cfg):
         Op("evaluate_deriv_density", lambda w: dn.evaluate_deriv_density(w["deriv_orders"], w["gam_sym"], w[B], w["points"])),
         Op("evaluate_density_gradient", lambda w: dn.evaluate_density_gradient(w["gam_sym"], w["basis_list"], w["points"], deriv_type="direct")),
         Op("evaluate_density_laplacian", lambda w: dn.evaluate_density_laplacian(w["gam_psd"], w[B], w["points"], transform=w["T_sq"])),
+        Op("evaluate_density_laplacian(matrix symmetric to round-off)", lambda w: dn.evaluate_density_laplacian(w["gam_round"], w[B], w["points"])),
+        Op("evaluate_density(matrix symmetric to round-off)", lambda w: dn.evaluate_density(w["gam_round"] + np.eye(len(w["gam_round"])) * 50, w[B], w["points"])),
+        Op("evaluate_stress_tensor(matrix symmetric to round-off)", lambda w: st.evaluate_stress_tensor(w["gam_round"], w[B], w["points"], alpha=0.5, beta=1.0)),
+        Op("evaluate_density_gradient(matrix symmetric to round-off)", lambda w: dn.evaluate_density_gradient(w["gam_round"], w[B], w["points"])),
+        Op("electrostatic_potential(matrix symmetric to round-off)", lambda w: electrostatic_potential(w[B], w["gam_round"], w["points"], w["nuc_coords"], w["nuc_charges"])),
         Op("evaluate_density_hessian", lambda w: dn.evaluate_density_hessian(w["gam_sym"], w[B], w["points"])),
         Op("evaluate_posdef_kinetic_energy_density", lambda w: dn.evaluate_posdef_kinetic_energy_density(w["gam_psd"], w[B], w["points"])),
         Op("evaluate_general_kinetic_energy_density", lambda w: dn.evaluate_general_kinetic_energy_density(w["gam_psd"], w[B], w["points"], 0.4)),
@@ -334,7 +341,7 @@ def evaluate(cfg):
                   ("deriv", lambda w: evaluate_deriv_basis(w["basis_tuple"], w["points"], w["deriv_orders"])),
                   ("norms", lambda w: [s.norm_cont for s in w["shells"]])]
         parts = ["shells", "basis_tuple", "basis_list", "points", "charge_coords", "charges", "nuc_coords", "nuc_charges",
-                 "origin", "orders", "deriv_orders", "gam_psd", "gam_sym", "gam_asym", "T_sq", "T_rect", "T_bad", "ct_list",
+                 "origin", "orders", "deriv_orders", "gam_psd", "gam_sym", "gam_asym", "gam_round", "T_sq", "T_rect", "T_bad", "ct_list",
                  "ct_tuple", "basis_dict", "atoms", "atom_coords", "alt_exps", "alt_coeffs", "alt_coord", "files"]
         import warnings
 
